@@ -1119,8 +1119,21 @@ class WorkflowConductor(object):
                 task_state_entry["term"] = True
 
         # Process the task event using the workflow state machine and update the workflow status.
+        old_workflow_status = self.get_workflow_status()
         task_ex_event = events.TaskExecutionEvent(task_id, route, task_state_entry["status"])
         machines.WorkflowStateMachine.process_event(self.workflow_state, task_ex_event)
+        new_workflow_status = self.get_workflow_status()
+
+        # If the task event puts the workflow into pausing or canceling (i.e. a task is pending
+        # or an action execution is canceled), pass the status change on to the other active
+        # tasks the same way a pause or cancel request does. Otherwise a with items task that
+        # has remaining items stays running but is given no more items to run, and the
+        # workflow never comes to rest.
+        if new_workflow_status != old_workflow_status and new_workflow_status in [
+            statuses.PAUSING,
+            statuses.CANCELING,
+        ]:
+            self.request_workflow_status(new_workflow_status)
 
         # Process any engine commands in the queue.
         while not engine_event_queue.empty():
